@@ -340,6 +340,7 @@ class CompMixin:
     b['bvnz'] = B('bvnz', lambda ex, a, k, n: V(S.BOOL, a[0].t != z3.BitVecVal(0, 64)))
     b['bvshl'] = B('bvshl', _b_bvshl)
     b['vresize'] = B('vresize', _b_vresize)
+    b['vpush'] = B('vpush', _b_vpush)
     b['itertools.chain'] = B('chain', _b_chain)
     b['id'] = B('id', lambda ex, a, k, n: Vl.ival(id(a[0])))
     b['False'] = Vl.bval(False)
@@ -680,6 +681,15 @@ def _b_bvshl(ex, a, k, n):
   kk = ex.as_int(a[1])
   ex.oblige(z3.And(0 <= kk, kk < 64), 'safety', 'shift amount within the word')
   return V(S.BV64, S.POW2(kk))
+
+
+def _b_vpush(ex, a, k, n):
+  """std::vector::push_back(x): the old elements followed by x (A-STL)."""
+  v = a[0]
+  s = v.sort
+  x = ex.coerce(a[1], s.elem)
+  ln = s.len(v.t)
+  return V(s, s.mk(z3.Store(s.arr(v.t), ln, x.t), ln + 1))
 
 
 def _b_vresize(ex, a, k, n):
